@@ -752,16 +752,18 @@ func bitAccessor(field interface{}) (func(uint) bool, bool) {
 	case int32:
 		v := uint64(int64(f))
 		return func(pos uint) bool {
+			// numbers are sign extended
 			if pos >= 64 {
-				return false
+				return f < 0
 			}
 			return v&(1<<pos) != 0
 		}, true
 	case int64:
 		v := uint64(f)
 		return func(pos uint) bool {
+			// numbers are sign extended
 			if pos >= 64 {
-				return false
+				return f < 0
 			}
 			return v&(1<<pos) != 0
 		}, true
@@ -777,8 +779,9 @@ func bitAccessor(field interface{}) (func(uint) bool, bool) {
 		}
 		v := uint64(int64(f))
 		return func(pos uint) bool {
+			// numbers are sign extended
 			if pos >= 64 {
-				return false
+				return f < 0
 			}
 			return v&(1<<pos) != 0
 		}, true
